@@ -64,6 +64,41 @@ func TestC05Srv(t *testing.T) {
 			}
 		}
 	}
+	// two streams whose messages are interleaved on the wire (and one id reused after its stream ended): each handler
+	// receives its own messages in the order sent
+	mkMsg := func(id uint64, b int64) SAct {
+		return SAct{Op: "deliver", F: &FrameSpec{Id: id, Hdr: "ok:0", Method: mBidi, Src: "src", Dst: "dst", Body: i64(b)}}
+	}
+	recv := func(h int) SAct { return SAct{Op: "hstep", H: h, Hop: &HopSpec{Op: "recv"}} }
+	open2 := SAct{Op: "deliver", F: &FrameSpec{Id: 2, Hdr: "ok:0", Method: mBidi, Src: "src2", Dst: "dst"}}
+	for _, pat := range []string{"12", "21", "1122", "1212", "2112", "121212"} {
+		for _, early := range []bool{false, true} {
+			acts := []SAct{open1, open2}
+			n := map[byte]int64{}
+			for i := 0; i < len(pat); i++ {
+				id := uint64(pat[i] - '0')
+				n[pat[i]]++
+				if early {
+					// the handler is already parked in RecvMsg when its message arrives
+					acts = append(acts, recv(int(id)-1))
+				}
+				acts = append(acts, mkMsg(id, int64(id)*100+n[pat[i]]))
+			}
+			if !early {
+				// everything is on the wire first (the read loop parks on a full queue); then the handlers drain, alternating
+				for k := int64(0); k < n['1'] || k < n['2']; k++ {
+					if k < n['2'] {
+						acts = append(acts, recv(1))
+					}
+					if k < n['1'] {
+						acts = append(acts, recv(0))
+					}
+				}
+			}
+			acts = append(acts, SAct{Op: "hstep", H: 0, Hop: &HopSpec{Op: "return"}}, SAct{Op: "hstep", H: 1, Hop: &HopSpec{Op: "return"}})
+			run("recv-order", acts, []string{"recv-order", "pattern:" + pat, fmt.Sprintf("early=%v", early)})
+		}
+	}
 	// equal ids from different sources
 	for _, srcs := range [][2]string{{"c-1", "c-11"}, {"src", "src2"}, {"src", "src"}} {
 		for _, order := range []string{"first-first", "second-first"} {
